@@ -297,7 +297,10 @@ impl<C: Config> InputSession<C> {
             let mut transaction = transaction.write().await;
 
             let Some((write_buffer, _guard)) = transaction.as_mut() else {
-                panic!("InputSession transaction has already been committed");
+                // Only the detached remainder of a cancelled call can get
+                // here (`commit` consumes the session): the session has been
+                // committed in the meantime, the interrupted write is dropped.
+                return set_input_result;
             };
 
             snapshot
@@ -375,7 +378,10 @@ impl<C: Config> InputSession<C> {
             let mut transaction = transaction.write().await;
 
             let Some((write_buffer, _guard)) = transaction.as_mut() else {
-                panic!("InputSession transaction has already been committed");
+                // Only the detached remainder of a cancelled call can get
+                // here (`commit` consumes the session): the session has been
+                // committed in the meantime, the interrupted write is dropped.
+                return set_input_result;
             };
 
             snapshot
@@ -517,7 +523,10 @@ impl<C: Config> InputSession<C> {
             let mut transaction = transaction.write().await;
 
             let Some((transaction, _guard)) = transaction.as_mut() else {
-                panic!("InputSession transaction has already been committed");
+                // Only the detached remainder of a cancelled `refresh` can
+                // get here: the session has been committed in the meantime,
+                // the interrupted refresh is dropped.
+                return;
             };
 
             while let Some(res) = join_set.join_next().await {
